@@ -180,6 +180,29 @@ def charset_responses(r):
                     p = judge_stream(events, res.body, announced)
                     if p:
                         r.violation("charset:" + p[0], w, f"{iface} SendEventResponse(charset={charset!r}) announces {ct!r}; decoded that way: {p[1]}")
+    # events whose block is larger than any piece size a transport might use (around and above 64 KiB, multi-byte text, many lines)
+    big = [{"data": "x" * 65535}, {"data": "x" * 65536}, {"data": "y" * 70000}, {"data": "é" * 40000}, {"data": "中" * 50000}, {"data": ("line " * 20 + "\n") * 1500, "event": "big"}, {"id": "i" * 66000, "data": "z"}, {"data": "w" * 200000}]
+    for iface in ("wsgi", "asgi"):
+        mod = __import__("baize.wsgi" if iface == "wsgi" else "baize.asgi", fromlist=["SendEventResponse"])
+        for ev in big:
+            events = [dict(ev), {"data": "after"}]
+            r.count("evaluations")
+            r.count("traces")
+            r.count("distinct_nontrivial")
+            w = {"kind": "charset", "iface": iface, "charset": None, "events": [{k: (v if len(v) < 50 else f"{v[:10]}...({len(v)} chars)") for k, v in e.items()} for e in events]}
+            if iface == "wsgi":
+                res = SV.run_wsgi(mod.SendEventResponse((dict(e) for e in events), ping_interval=30), SV.to_environ(SV.AReq()))
+            else:
+                async def gen2(events=events):
+                    for e in events:
+                        yield dict(e)
+                res = SV.run_asgi(mod.SendEventResponse(gen2(), ping_interval=30), SV.to_scope(SV.AReq()), SV.to_messages(SV.AReq()))
+            if res.exc is not None or res.problems:
+                r.violation("charset:failed", w, f"{iface} SendEventResponse over a large event failed: {res.exc!r} {res.problems[:1]}")
+                continue
+            p = judge_stream(events, res.body, "utf-8")
+            if p:
+                r.violation("bigevent:" + p[0], w, f"{iface} SendEventResponse over an event of {sum(len(v) for v in ev.values())} characters: {p[1][:300]}")
     r.sample({"charset": "gbk", "events": CHARSET_EVENTS[:2]})
 
 
